@@ -393,5 +393,8 @@ Definition run_observe (bytes : list Z) : option (list (Z * list (list Z))) :=
              (2, unk_obs (the_dir bytes));
              sec (get_stream dec_softerr e bytes (the_dir bytes) ST_MozSoftErrors) (fun b => [str b]);
              sec (get_stream dec_bootargs e bytes (the_dir bytes) ST_MozMacosBootargsStream) (fun x => [ba_type x :: ostr (ba_args x)]);
-             sec (get_stream dec_crashpad e bytes (the_dir bytes) ST_CrashpadInfoStream) crashpad_obs ]
+             sec (get_stream dec_crashpad e bytes (the_dir bytes) ST_CrashpadInfoStream) crashpad_obs;
+             (* the object-information chain of every handle: count, then (info_type, size_of_info) in chain order *)
+             sec (get_stream dec_handle_chains e bytes (the_dir bytes) ST_HandleDataStream)
+                 (map (fun c => zlen c :: flat_map (fun p => [fst p; snd p]) c)) ]
   end.
